@@ -50,6 +50,33 @@ class ProofResult:
     files: list[str] = field(default_factory=list)
 
 
+def write_coqproject() -> bool:
+    """_CoqProject = every .v under Base/ Model/ gen/ Proofs/ Props/ (directory-driven, so that adding a
+    property never edits a shared file).  Returns True when the file list changed."""
+    files = []
+    for d in ("Base", "Model", "gen", "Proofs", "Props"):
+        for root, _, names in os.walk(os.path.join(COQ, d)):
+            for n in sorted(names):
+                if n.endswith(".v") and not n.startswith("."):
+                    files.append(os.path.relpath(os.path.join(root, n), COQ))
+    text = "-Q . PV\n" + "\n".join(sorted(files)) + "\n"
+    path = os.path.join(COQ, "_CoqProject")
+    old = open(path).read() if os.path.exists(path) else None
+    if old != text:
+        with open(path, "w") as f:
+            f.write(text)
+        return True
+    return False
+
+
+def ensure_makefile() -> None:
+    """(call under _Lock) regenerate the Makefile when the file list changed."""
+    changed = write_coqproject()
+    if changed or not os.path.exists(os.path.join(COQ, "Makefile")):
+        subprocess.run(["coq_makefile", "-f", "_CoqProject", "-o", "Makefile"], cwd=COQ, check=True,
+                       capture_output=True)
+
+
 class _Lock:
     def __enter__(self):
         self.f = open(os.path.join(COQ, ".lock"), "w")
@@ -159,9 +186,7 @@ class Ctx:
         target = props_rel[:-2] + ".vo"
         cmd = f"make -C coq -j{NCPU} {target}"
         with _Lock():
-            if not os.path.exists(os.path.join(COQ, "Makefile")):
-                subprocess.run(["coq_makefile", "-f", "_CoqProject", "-o", "Makefile"], cwd=COQ,
-                               check=True, capture_output=True)
+            ensure_makefile()
             for ext in (".vo", ".glob", ".vok", ".vos"):
                 p = os.path.join(COQ, props_rel[:-2] + ext)
                 if os.path.exists(p):
@@ -225,6 +250,7 @@ class Ctx:
         shards = [exprs[i:i + chunk] for i in range(0, len(exprs), chunk)]
         mods = sorted({m.replace(".", "/") + ".vo" for m in imports})
         with _Lock():
+            ensure_makefile()
             r = subprocess.run(["make", "-j", str(NCPU)] + mods, cwd=COQ, capture_output=True, text=True,
                                timeout=timeout)
             if r.returncode != 0:
